@@ -249,5 +249,9 @@ def check(s):
     from .util import fields_initialised
     fields_initialised(s, "C16.3", [c for m_ in sorted(P.modules.values(), key=lambda m__: m__.name) if m_.name.startswith("lerax.policy") for c in m_.classes.values()],
                        necessary_for="masked actions are never chosen end-to-end through actor-critic policies for discrete, multi-discrete and multi-binary actions (the head must exist)")
-    for r_, n_ in (("C16.1", 9), ("C16.2", 10), ("C16.3", 4), ("C16.4", 6), ("C16.5", 16), ("C16.6", 4), ("C16.7", 1)):
+    # C16.8 the greedy action is the most likely class also for large action spaces: the mode / draws handed out are not the wrapped
+    # library's int8-narrowed indices (shared rule with C15.7)
+    from .C15 import check_index_width
+    check_index_width(s, "C16.8")
+    for r_, n_ in (("C16.1", 9), ("C16.2", 10), ("C16.3", 4), ("C16.4", 6), ("C16.5", 16), ("C16.6", 4), ("C16.7", 1), ("C16.8", 6)):
         s.floor(r_, n_)
